@@ -81,6 +81,9 @@ def chk_air(c, note):
     exp = expected_air(c)
     if c["vr"] & 1:
         variants.prelude(pms, msg)  # parity / address of the same string looked at first
+    if c["vr"] & 2:
+        variants.damaged_calls(pms.adsb.velocity, msg)
+        variants.damaged_calls(pms.adsb.airborne_velocity, msg)
     for fname, fn in (("velocity", pms.adsb.velocity), ("airborne_velocity", pms.adsb.airborne_velocity)):
         for source in (False, True):
             r = call(fn, msg, source) if source else call(fn, msg)
